@@ -654,6 +654,30 @@ func c14R1(h H) {
 				n++
 				okPair := true
 				reach(fn, in, cut{instr: func(x ssa.Instruction) bool {
+					// the same thing written with a timer: time.AfterFunc(d, func() { Fails-- })
+					if c := callOf(x); c != nil && calleeName(c) == "time.AfterFunc" && len(c.Args) == 2 {
+						var f *ssa.Function
+						switch t := c.Args[1].(type) {
+						case *ssa.MakeClosure:
+							f, _ = t.Fn.(*ssa.Function)
+						case *ssa.Function:
+							f = t
+						}
+						if f == nil {
+							return false
+						}
+						dec := false
+						allInstrs(f, func(y ssa.Instruction) {
+							if a2, nm, ok := isAtomicCall(y); ok && strings.HasPrefix(nm, "Add") {
+								if fa2, ok := a2.(*ssa.FieldAddr); ok && fieldName(fa2.X.Type(), fa2.Field) == "Fails" {
+									if dl, _ := constInt(callOf(y).Args[1]); dl == -1 {
+										dec = true
+									}
+								}
+							}
+						})
+						return dec
+					}
 					g, isGo := x.(*ssa.Go)
 					if !isGo {
 						return false
